@@ -138,6 +138,10 @@ def run(phase, cases, ctx):
                 lands = [land]
                 if x64:   # a landscape storing float32 maps must still locate float64 directions exactly
                     lands.append(HealpixLandscape(ns, 'I', jnp.float32))
+                if ns <= 8:   # the frequency landscape shares the HEALPix pixelisation (its map has an extra leading axis)
+                    from furax.landscapes import FrequencyLandscape
+
+                    lands.append(FrequencyLandscape(ns, np.array([10.0, 20.0, 30.0]), 'IQU', D))
                 centre = np.array(hp.pix2vec(ns, pix)).T
                 pts = [centre]
                 corners = hp.boundaries(ns, pix, step=1)  # (npix, 3, 4)
